@@ -354,6 +354,58 @@ def offgrid_float_tie(chk, realuwg, sgp_rows, work):
                'a refusal only when three or more records all lie above the pavement', mismatches=bad, branches=br)
 
 
+def equal_depth_float_tie(chk, realuwg, work):
+    """The C20 statement on the columns of the real (double precision) generate() when a ground record lies EXACTLY at the
+    bottom of the pavement, for every pavement thickness on the 5 cm grid (harness/x3_util.equal_depth_family): the sum of
+    n slices of 0.05 is, for many n, one ulp above / below the double of the decimal depth written in the file."""
+    import x3_util as X3
+    fam = X3.equal_depth_family(chk.rng, chk.tier == 'quick')
+    src = os.path.join(core.REPO, EPW)
+    bad, br = 0, {}
+    for ci, mem in enumerate(fam):
+        depths = [float(x) for x in mem['depths']]
+        epw = U4.ground_file(src, os.path.join(work, 'equal_depth.epw'), mem['depths'],
+                             [None, PROPS['filled'], PROPS['partly']][ci % 3])
+        m = realuwg.UWG.from_param_file(os.path.join(core.REPO, PARAM), epw_path=epw)
+        m.nday, m.droad = 1, float(mem['droad'])
+        m.kroad, m.croad = [1.8, 1.0, 0.6][ci % 3], [1.6e6, 2.4e6, 2e6][(ci // 3) % 3]
+        for attr in ('_soilindex1', '_soilindex2'):
+            if hasattr(m, attr):
+                delattr(m, attr)
+        nlay = max(int(math.ceil(m.droad / 0.05)), 1)
+        tag = '%s/record is the %s of three/%s' % (mem['kind'], mem['position'],
+                                                  'droad 1 cm short of the grid point' if mem['short'] else 'droad on the grid')
+        br[tag] = br.get(tag, 0) + 1
+        try:
+            with core.quiet():
+                m.generate()
+            msgs = [(k, mm) for k, mm in float_columns_msgs(m, depths) if mm]
+        except Exception as e:  # noqa: BLE001 - a record lies at the bottom of the pavement: nothing may be refused
+            msgs = [('generate', 'generate() raises %s: %s' % (type(e).__name__, str(e)[:160]))]
+        for kind, msg in msgs[:1]:
+            bad += 1
+            if bad <= 3:
+                chk.violation('impl-violation', 'ground record exactly at the bottom of the pavement (real float generate): %s' % kind,
+                              case={'droad': m.droad, 'GROUND TEMPERATURES depths (as written in the file)': mem['depths'],
+                                    'pavement slices built (ceil(droad / 0.05))': nlay,
+                                    'sum of the slices as doubles': repr(sum([0.05] * nlay)),
+                                    'the record that lies at the bottom of the pavement': '%s m, record %d (%s)' % (
+                                        mem['depths'][mem['index']], mem['index'], mem['kind'])},
+                              observed=msg,
+                              expected='road AND rural column each end at record %d (%s m): the first ground-temperature depth at '
+                                       'or below the pavement is the one exactly at its bottom (no padding); both soil indices '
+                                       'point at it' % (mem['index'], mem['depths'][mem['index']]))
+    chk.direct('padding-oracle(real float generate, a ground record exactly at the bottom of the pavement)', 2 * len(fam),
+               2 * len(fam),
+               'real (double precision) generate() on copies of the Singapore file one of whose ground records is EQUAL to the '
+               'pavement thickness, for pavements on the 5 cm grid from 0.05 to 4 m (quick: 10 drawn - 6 whose 5 cm slices sum '
+               'one ulp ABOVE the double of the decimal depth (0.15, 0.30, 0.35, 0.60, 0.70 ... 3.90 m), 4 where the sum equals '
+               'it; thorough: all 80); the record is the first / the middle / the last of three; droad written on the grid or 1 cm '
+               'short of it (the same slices are built); soil-property cells blank / filled / partly filled, kroad / croad cycling. '
+               'Judged for the road and for the rural column SEPARATELY: soil index = that record, column depth = that depth '
+               '(to 1e-9), pavement then soil slice by slice; no refusal', mismatches=bad, branches=br)
+
+
 def run(chk):
     from props import epwheader
     chk.proof(MODULE, THEOREMS + epwheader.GROUND_THEOREMS, extra_modules=[epwheader.MODULE])
@@ -611,12 +663,17 @@ def run(chk):
             float(oc['droad'])) for n, oc in enumerate((oc_in, oc_mm))]
     chk.extra_cov['off_grid_geometry(deepTemp runs)'] = [
         {'kind': oc['kind'], 'depths': [float(x) for x in oc['depths']], 'droad': float(oc['droad'])} for oc in (oc_in, oc_mm)]
+    # a rural file of a cold climate: the record the columns end at is below 0 degC from October to March (signed cells), run in
+    # such a month
+    t5.append(((rng.choice([1, 2, 3, 10, 11, 12]), rng.randint(1, 28), 1), 'blank', [0.5, 2.0, 4.0], None))
+    cold_idx = len(t5) - 1
     hdr_file = None
-    for ((mo, dy, nd), variant, own_depths, droad) in t5:
+    for ti, ((mo, dy, nd), variant, own_depths, droad) in enumerate(t5):
         if own_depths:
             rows_v = S.copy_rows(sgp_rows)
             rows_v[3] = S.ground_line(own_depths, PROPS[variant],
-                                      temps=lambda i, mth: '%.2f' % (11.0 + 1.7 * i + 0.31 * mth))
+                                      temps=lambda i, mth, ti=ti: '%.2f' % (
+                                          (-9.0 + 4.0 * min(mth, 11 - mth) if ti == cold_idx else 11.0 + 0.31 * mth) + 1.7 * i))
         else:
             rows_v = S.apply_variant(sgp_rows, variant)
         epw_v = os.path.join(repo, EPW) if variant == 'base' else S.save_epw(rows_v, os.path.join(work, 't5v.epw'))
@@ -667,7 +724,7 @@ def run(chk):
                'properties); a four-depth line with properties filled and the pavement below the second depth; two '
                'one-day runs with OFF-GRID geometry (a ground record between the raw droad and droad rounded up to whole '
                '5 cm slices - it lies inside the asphalt and must be passed over; depths / droad to the millimetre or '
-               'in feet and inches). '
+               'in feet and inches); a file of a cold climate whose 0.5 m record is below 0 degC from October to March (signed cells: -9.00, -5.00, -1.00, 3.00 ... 11.00), run in one of those months. '
                'Expected values are parsed by the EPW layout (16 cells per depth)', mismatches=bad3)
 
     # --- float-level padding oracle on the real generate(): pavement thickness grid
@@ -729,6 +786,7 @@ def run(chk):
                '2.4e6 / 2e6 J/m3-K: slice by slice the pavement carries (kroad, croad) and everything below it is soil '
                'in every property (k = 1, c = 2e6, 0.05 m, Material "soil")', mismatches=bad5, branches=compf)
     offgrid_float_tie(chk, realuwg, sgp_rows, work)
+    equal_depth_float_tie(chk, realuwg, work)
     chk.assumptions.append('float effects in ceil(droad/0.05) and depth > sum(thickness) are outside the exact '
                            'model (e.g. droad=0.35 gives 8 pavement layers in doubles, 7 exactly)')
     circumstance_ties(chk, chk.tier == 'quick')
